@@ -177,6 +177,10 @@ type c15unit struct {
 	n    int
 }
 
+type c15Off uint32
+type c15ID int64
+type c15Small int16
+
 type typeT struct {
 	A int8
 	B uint16
@@ -205,7 +209,7 @@ func refTypeT(v typeT, be bool) []byte {
 // C15 check.
 func C15(r *h.Run) {
 	thorough := r.Tier == "thorough"
-	r.Rule = "every value of the stated per-encoder domains (8/16-bit exhaustive; 32-bit exhaustive in thorough, lane-alphabet {00,01,7f,80,ff}^4 + all 1-/2-bit patterns + power-of-two neighbours in quick; 64-bit and native int: lane^8 + patterns; String16 every length in the stated set x 2 contents; Bytes{n}; Dummy; TypeEncoder struct and plain ints in both byte orders); each value is checked with 0, 1 and 7 junk bytes appended; values are distinct by construction; non-trivial = encoding contains at least two different bytes"
+	r.Rule = "every value of the stated per-encoder domains (8/16-bit exhaustive; 32-bit exhaustive in thorough, lane-alphabet {00,01,7f,80,ff}^4 + all 1-/2-bit patterns + power-of-two neighbours in quick; 64-bit and native int: lane^8 + patterns; String16 every length in the stated set x 2 contents; Bytes{n}; Dummy; TypeEncoder struct, plain and defined (named) integer types in both byte orders); each value is checked with 0, 1 and 7 junk bytes appended; values are distinct by construction; non-trivial = encoding contains at least two different bytes"
 	r.Assumptions = []string{"only the platform's int width (64) is explored", "reference layout is a hand-written shift/mask codec inside the harness", "Dummy's value domain is {nil}; Bytes{n}'s domain is slices of length n"}
 
 	gen := func(emit func(u interface{}) bool) {
@@ -514,6 +518,10 @@ func C15(r *h.Run) {
 				{"uint32", uint32(0), 4, func(u uint64) interface{} { return uint32(u) }},
 				{"int64", int64(0), 8, func(u uint64) interface{} { return int64(u) }},
 				{"uint64", uint64(0), 8, func(u uint64) interface{} { return uint64(u) }},
+				// defined integer types: the decoded value must have exactly this type
+				{"named-uint32", c15Off(0), 4, func(u uint64) interface{} { return c15Off(u) }},
+				{"named-int64", c15ID(0), 8, func(u uint64) interface{} { return c15ID(u) }},
+				{"named-int16", c15Small(0), 2, func(u uint64) interface{} { return c15Small(u) }},
 			}
 			for _, k := range kinds {
 				for _, be := range []bool{false, true} {
